@@ -30,6 +30,7 @@ let dispatch kind fields =
   | "C14" -> run_c14 fields
   | "SESS" -> K_sess.run_sess fields
   | "VISO" -> K_viso.run_viso fields
+  | "ENC" -> K_enc.run_enc fields
   | _ -> failwith ("unknown kind " ^ kind)
 
 let () =
